@@ -85,12 +85,14 @@ def main():
         res["status"] = "confirmed"
         # keep it
         dst = os.path.join(VERIF, "seeded", name)
-        shutil.rmtree(dst, ignore_errors=True)
-        os.makedirs(dst)
-        shutil.copy(os.path.join(outdir, "patch.diff"), dst)
-        shutil.copytree(os.path.join(outdir, "demo"), os.path.join(dst, "demo"))
+        if os.path.abspath(outdir) != os.path.abspath(dst):
+            shutil.rmtree(dst, ignore_errors=True)
+            os.makedirs(dst)
+            shutil.copy(os.path.join(outdir, "patch.diff"), dst)
+            shutil.copytree(os.path.join(outdir, "demo"), os.path.join(dst, "demo"))
         m = {"property": prop, "summary": meta.get("summary"), "needs_to_manifest": meta.get("needs_to_manifest"),
-             "files_changed": meta.get("files_changed"), "agent_notes": meta.get("notes"),
+             "files_changed": meta.get("files_changed"), "agent_notes": meta.get("agent_notes") or meta.get("notes"),
+             "demo_cmd": meta.get("demo_cmd"), "rebased": meta.get("rebased"),
              "confirmed": {"applies_to_repo_commit": res["checked_at_repo_commit"], "existing_tests_pass": True,
                            "demo_fails_with_change": True, "demo_passes_without": True,
                            "ran": "tools/seedcheck.py: scratch worktree of /repo HEAD + patch.diff; repository suite (root, tests/, fuzz/); demo with and without the change; ./check <id> quick with VERIF_REPO=<scratch tree>"},
